@@ -190,6 +190,19 @@ def build(prog):
         g = ev.loop_sum(inner, i)
         h = ev.loop_concatenate(ev.InsertAxis(ev.loop_sum(ev.Sum(ev.get(yi, 0, j)), j), c(1)), i)
         return (f, g, h), args
+    if fam == 'P21':  # nested loops whose OUTER length is known only at run time (0, 1 or more iterations): whether the outer loop forks is decided per call
+        k = int(prog.get('k', 2))
+        N = ev.InRange(ev.Argument('N', (), int), c(n + 1))
+        args['N'] = numpy.array(int(prog.get('nrun', 1)))
+        io = ev.loop_index('i', N)
+        Y = arg('y', (n + 1, k, m))
+        j = ev.loop_index('j', k)
+        yi = ev.get(Y, 0, io)
+        inner = ev.loop_sum(ev.get(yi, 0, j) * ev.get(yi, 0, j), j)
+        f = ev.loop_sum(inner * inner, io)
+        g = ev.loop_concatenate(ev.loop_sum(ev.get(yi, 0, j), j), io)
+        h = ev.loop_sum(ev.loop_concatenate(ev.get(yi, 0, j), j), io)
+        return (f, g, h), args
     raise ValueError(f'unknown family {fam}')
 
 
@@ -209,6 +222,10 @@ def gen_prog(rng, families, small=False):
         prog['L'] = rng.choice([1, 2, 4, 6])
     if fam == 'P18':
         prog['nrun'] = rng.randint(0, prog['n'])
+    if fam == 'P21':
+        prog['n'] = max(prog['n'], 1)
+        prog['nrun'] = min(prog['n'], rng.choice([0, 1, 1, 1, 2, prog['n']]))
+        prog['k'] = rng.choice([2, 3, 5])
     if fam in ('P6', 'P19'):
         prog['n2'] = rng.choice([1, 2, 3, 5])
     if fam == 'P14':
